@@ -52,6 +52,7 @@ package errors
 //@ ghost attached int
 //@ ghost attachedLogger int
 //@ func errorsParse
+//@   requires c != nil
 //@   ensures result1 == nil ==> (result0 != nil && result0.Log != nil)
 //@ extern (*github.com/tmpim/casket/caskethttp/httpserver.Logger).Attach
 //@   modifies ghost:attached, ghost:attachedLogger
